@@ -462,6 +462,10 @@ def run(ctx):
     # phase 1: a thin pilot slice finds crashing (variant, class) pairs
     # cheaply; phase 2: everything, with those pairs skipped.
     algo_names = list(U.algos(False))
+    if _os.environ.get('VERIF_C01_ONLY'):
+        # development aid (not used by registered commands)
+        algo_names = [a for a in algo_names
+                      if a in _os.environ['VERIF_C01_ONLY'].split(',')]
     pilot = cfgs[::97]
     pj = [(pilot[i:i + 40], images, ctx.thorough, a)
           for a in algo_names for i in range(0, len(pilot), 40)]
